@@ -1004,7 +1004,8 @@ pub fn build_c17(quick: bool) -> Vec<Scenario> {
     v.into_iter()
         .map(|s| {
             // the spurious wake-up is one deviation, the window it has to hit a second one
-            let deep = s.name.ends_with("spurious_park.w1") || s.name.contains(".fdshift1.") && s.name.starts_with("tcp.");
+            // (the same for the unix listener: connect, the event handled by the other worker's selector, then subscribe)
+            let deep = s.name.ends_with("spurious_park.w1") || s.name.contains(".fdshift1.") && s.name.starts_with("tcp.") || s.name.starts_with("unixlistener.") && s.name.ends_with(".w2");
             let s = s.tier(quick);
             if deep && s.bound < 2 {
                 s.bound(2)
@@ -1014,6 +1015,108 @@ pub fn build_c17(quick: bool) -> Vec<Scenario> {
         })
         .map(|s| s.horizon(12_000))
         .collect()
+}
+
+/// a loopback TCP listener whose accept queue is full: the kernel drops further SYNs, so a connect to it stays in
+/// progress (the retransmission comes after one second of real time, far beyond any execution). The returned
+/// descriptors keep the state alive.
+fn blackhole_listener() -> (std::net::SocketAddr, Vec<std::os::unix::io::OwnedFd>) {
+    use std::os::unix::io::{FromRawFd, IntoRawFd};
+    let l = std::net::TcpListener::bind("127.0.0.1:0").unwrap();
+    let addr = l.local_addr().unwrap();
+    let mut keep = vec![];
+    unsafe {
+        let lfd = l.into_raw_fd();
+        libc::listen(lfd, 0);
+        keep.push(std::os::unix::io::OwnedFd::from_raw_fd(lfd));
+        let mut sa: libc::sockaddr_in = std::mem::zeroed();
+        sa.sin_family = libc::AF_INET as libc::sa_family_t;
+        sa.sin_addr.s_addr = u32::from_ne_bytes([127, 0, 0, 1]);
+        sa.sin_port = addr.port().to_be();
+        for _ in 0..16 {
+            let fd = libc::socket(libc::AF_INET, libc::SOCK_STREAM | libc::SOCK_CLOEXEC | libc::SOCK_NONBLOCK, 0);
+            assert!(fd >= 0);
+            keep.push(std::os::unix::io::OwnedFd::from_raw_fd(fd));
+            libc::connect(fd, &sa as *const _ as *const libc::sockaddr, std::mem::size_of::<libc::sockaddr_in>() as libc::socklen_t);
+            let mut pfd = libc::pollfd { fd, events: libc::POLLOUT, revents: 0 };
+            if libc::poll(&mut pfd, 1, 2) == 0 {
+                // this one is not answered any more: the queue is full
+                return (addr, keep);
+            }
+        }
+    }
+    panic!("environment: the accept queue of a listen(0) socket never filled up");
+}
+
+/// TcpStream::connect_timeout. `blackhole`: nobody answers - the call must fail with TimedOut, no earlier than `d` and not
+/// (much) later. Otherwise the connect succeeds at once, with its timer armed or not: the first read on the new stream
+/// has no timeout and its data arrives long after the connect's deadline - it must not be hit by that timer.
+fn connect_timeout(e: &'static Engine, workers: usize, d_ns: u64, blackhole: bool, kind: char) {
+    rt_init(workers);
+    let d = Duration::from_nanos(d_ns);
+    if blackhole {
+        let (addr, _keep) = blackhole_listener();
+        e.begin();
+        let res: Arc<Mutex<Option<(Option<ErrorKind>, u64)>>> = Arc::new(Mutex::new(None));
+        let r2 = res.clone();
+        let h = spawn_part(e, kind, move || {
+            let t0 = may::verif::now();
+            let r = TcpStream::connect_timeout(&addr, d);
+            let dt = may::verif::now() - t0;
+            *r2.lock().unwrap_or_else(|e| e.into_inner()) = Some((r.err().map(|x| x.kind()), dt));
+        });
+        if join_part(e, h).is_err() {
+            e.fail("unexpected_panic", "the connecting participant panicked");
+        }
+        let r = res.lock().unwrap_or_else(|e| e.into_inner()).take();
+        match r {
+            Some((Some(ErrorKind::TimedOut), dt)) => {
+                if dt < d_ns {
+                    e.fail("timeout_early", &format!("connect_timeout({} ns) failed with TimedOut after only {} ns", d_ns, dt));
+                }
+                if !e.t2_used() && dt > d_ns + MS {
+                    e.fail("timeout_late", &format!("connect_timeout({} ns) returned after {} ns", d_ns, dt));
+                }
+                e.note("timed_out");
+            }
+            Some((None, _)) => e.fail("environment", "the connect to a listener with a full accept queue succeeded"),
+            Some((Some(k), _)) => e.fail("connect_error", &format!("connect_timeout failed with {:?} instead of TimedOut", k)),
+            None => e.fail("unexpected_panic", "no result"),
+        }
+        return;
+    }
+    let l = TcpListener::bind("127.0.0.1:0").unwrap();
+    let addr = l.local_addr().unwrap();
+    e.begin();
+    let srv = go!(move || {
+        let (mut s, _) = match l.accept() {
+            Ok(x) => x,
+            Err(err) => e.fail("accept_error", &format!("accept failed: {}", err)),
+        };
+        coroutine::sleep(Duration::from_nanos(3 * d_ns));
+        if let Err(err) = s.write_all(b"z") {
+            e.fail("write_error", &format!("write failed: {}", err));
+        }
+        // keep the stream open until the client has read
+        s
+    });
+    let h = spawn_part(e, kind, move || {
+        let mut c = match TcpStream::connect_timeout(&addr, d) {
+            Ok(c) => c,
+            Err(err) => e.fail("connect_error", &format!("connect_timeout to a live listener failed: {}", err)),
+        };
+        let mut buf = [0u8; 2];
+        match c.read(&mut buf) {
+            Ok(1) if buf[0] == b'z' => {}
+            Ok(n) => e.fail("stream_corrupted", &format!("read returned {} bytes {:?}", n, &buf[..n])),
+            Err(err) => e.fail("later_operation_hit", &format!("the first read (no timeout set) on a stream from connect_timeout({} ns) failed with {}: the connect's timer outlived the connect", d_ns, err)),
+        }
+    });
+    if join_part(e, h).is_err() {
+        e.fail("unexpected_panic", "the connecting participant panicked");
+    }
+    let _s = srv.join().unwrap_or_else(|_| e.fail("unexpected_panic", "the server panicked"));
+    e.note("connected");
 }
 
 /// UDP: a recv_from whose datagram arrives in the instant of its deadline, then a recv on the same (connected) socket whose
@@ -1092,6 +1195,15 @@ pub fn build_c18(quick: bool) -> Vec<Scenario> {
         v.push(Scenario::new(p, "read_timeout", format!("tcp.read_timeout.1500000ns.never.w{}", w), Arc::new(move |e| read_timeout(e, w, 3 * MS / 2, &[0], 0, true))).t2());
         v.push(Scenario::new(p, "stale_timer", format!("tcp.read_timeout.2ms.read_meets_data_then_never.w{}", w), Arc::new(move |e| read_timeout(e, w, 2 * MS, &[MS / 2, 0], MS / 2, true))).t2().bound(2));
         v.push(Scenario::new(p, "udp_timeout", format!("udp.recv_from_meets_deadline.then_recv.2ms.w{}", w), Arc::new(move |e| udp_timeout_then_recv(e, w, 2 * MS))).t2().bound(2));
+        // connect with a timeout: nobody answers / answered at once and the stream used beyond the connect's deadline
+        for d in [MS / 2, 3 * MS / 2] {
+            v.push(Scenario::new(p, "connect_timeout", format!("connect_timeout.{}ns.blackhole.C.w{}", d, w), Arc::new(move |e| connect_timeout(e, w, d, true, 'C'))).t2());
+        }
+        if w == 2 {
+            v.push(Scenario::new(p, "connect_timeout", "connect_timeout.2ms.blackhole.T.w2", Arc::new(move |e| connect_timeout(e, 2, 2 * MS, true, 'T'))).t2());
+        }
+        v.push(Scenario::new(p, "connect_timeout", format!("connect_timeout.2ms.live_listener.then_untimed_read.C.w{}", w), Arc::new(move |e| connect_timeout(e, w, 2 * MS, false, 'C'))));
+        v.push(Scenario::new(p, "connect_timeout", format!("connect_timeout.2ms.live_listener.then_untimed_read.T.w{}", w), Arc::new(move |e| connect_timeout(e, w, 2 * MS, false, 'T'))));
         for what in [Blocked::Read, Blocked::TimedRead, Blocked::Accept, Blocked::UdpRecv] {
             v.push(Scenario::new(p, "cancel_io", format!("cancel_io.{:?}.w{}", what, w).to_lowercase(), Arc::new(move |e| cancel_io(e, w, what))));
         }
@@ -1100,8 +1212,13 @@ pub fn build_c18(quick: bool) -> Vec<Scenario> {
         .map(|s| {
             // the fast-path member needs two deviations: guaranteed in both tiers
             let deep = s.name.contains("read_meets_data") && s.name.ends_with(".w1");
+            // every execution of a blackhole member pays 2 ms of real time for its set-up (the poll that finds the accept
+            // queue full): the quick tier stops at two deviations there - the lost-timeout window needs two
+            let blackhole = s.name.contains(".blackhole.");
             let s = s.tier(quick);
-            if deep && s.bound < 2 {
+            if blackhole && quick {
+                s.bound(2).deepen(2, 6_000)
+            } else if deep && s.bound < 2 {
                 s.bound(2)
             } else {
                 s
